@@ -72,7 +72,7 @@ func TestRuleCatalogue(t *testing.T) {
 		if fam == ce.FamGates {
 			minB = 3
 		}
-		tr := ce.GenTree(t, ce.TreeCfg{Families: []ce.Family{fam}, MinBlocks: minB, MaxBlocks: ev.Scale(14, 24), Txs: true, ForkProb: 20, Maturity: []uint16{1, 2, 3, 5}})
+		tr := ce.GenTree(t, ce.TreeCfg{Families: []ce.Family{fam}, MinBlocks: minB, MaxBlocks: ev.Scale(14, 24), Txs: true, ForkProb: 25, Maturity: []uint16{1, 2, 3, 5}, BigSteps: true})
 		envNow := int64(ce.T0 + 100000000)
 
 		// pick an entry and a parent on which its prerequisites hold
@@ -266,6 +266,122 @@ func TestRuleCatalogue(t *testing.T) {
 					}
 					return s
 				}(), " ")}
+		})
+	})
+}
+
+// ---------------------------------------------------------------------------
+// context independence: the verdict must come from the candidate's own
+// ancestors even while a different branch is the active chain.
+
+var recCtx = ev.New("C01", "reorg-context",
+	"two branches from a common fork point with deliberately different timestamp patterns (1-3 s steps versus steps of minutes) and different coin ages; branch X is delivered first and is active; the candidate sits on branch Y at least two blocks above the fork and is built by one of the context-dependent catalogue entries "+
+		"(BIP68 time and height locks, lock-time finality by median time and by height, coinbase maturity, median-time timestamp rule, input availability) from coins of its OWN branch; Y then grows past X so that the candidate is validated during a reorganisation while X is still the best chain; "+
+		"oracle: by-construction label through the chain-selection model (valid => Y becomes active, invalid => the node stays on X) and final UTXO fold; non-trivial = every case (the candidate's context differs from the active chain's at the same heights); distinct by (rule, side, block hash)",
+	"bip68-time/valid", "bip68-time/invalid", "bip68-height/valid", "bip68-height/invalid", "locktime-time/valid", "locktime-time/invalid", "coinbase-maturity/valid", "coinbase-maturity/invalid")
+
+func TestReorgContext(t *testing.T) {
+	all := catalogue()
+	var cat []entry
+	for _, e := range all {
+		switch e.name {
+		case "bip68-time", "bip68-height", "locktime-time", "locktime-height", "coinbase-maturity", "time-mtp", "inputs":
+			cat = append(cat, e)
+		}
+	}
+	rapid.Check(t, func(t *rapid.T) {
+		mat := rapid.SampledFrom([]uint16{1, 2, 3}).Draw(t, "maturity")
+		tr := ce.NewTree(ce.FamFlat, ce.NewParams(ce.FamFlat, mat))
+		step := func(fast bool, label string) int64 {
+			if fast {
+				return int64(rapid.IntRange(1, 3).Draw(t, label))
+			}
+			return rapid.SampledFrom([]int64{300, 512, 700, 1100}).Draw(t, label)
+		}
+		xFast := rapid.Bool().Draw(t, "xFast")
+		cur := tr.Genesis
+		for i := 0; i < rapid.IntRange(1, 3).Draw(t, "base"); i++ {
+			cur = tr.Extend(cur, ce.BlockOpt{TimeDelta: step(true, "dtBase")})
+		}
+		fork := cur
+		// branch X (active first)
+		x := fork
+		xLen := rapid.IntRange(3, 8).Draw(t, "xLen")
+		for i := 0; i < xLen; i++ {
+			x = tr.Extend(x, ce.BlockOpt{TimeDelta: step(xFast, "dtX"), Txs: ce.GenTxs(t, tr, x, rapid.IntRange(0, 1).Draw(t, "xTxs"))})
+		}
+		// branch Y up to the candidate's parent: shorter than X
+		y := fork
+		yPre := rapid.IntRange(2, xLen-1).Draw(t, "yPre")
+		for i := 0; i < yPre; i++ {
+			y = tr.Extend(y, ce.BlockOpt{TimeDelta: step(!xFast, "dtY"), Txs: ce.GenTxs(t, tr, y, rapid.IntRange(0, 2).Draw(t, "yTxs"))})
+		}
+		invalid := rapid.Bool().Draw(t, "invalidSide")
+		var cand *ce.Node
+		var ent entry
+		var c *ctx
+		for try := 0; try < 6 && cand == nil; try++ {
+			ent = cat[uniform(t, len(cat), "entry")]
+			c = &ctx{t: t, tr: tr, parent: y, invalid: invalid, now: int64(ce.T0 + 100000000), preferAbove: fork.Height}
+			cand = ent.build(c)
+		}
+		if cand == nil {
+			t.Skip("no entry applicable")
+		}
+		// Y grows past X
+		last := cand
+		for last.WorkSum.Cmp(x.WorkSum) <= 0 || rapid.IntRange(0, 2).Draw(t, "more") == 0 {
+			last = tr.Extend(last, ce.BlockOpt{TimeDelta: step(!xFast, "dtY2")})
+			if last.Height > x.Height+3 {
+				break
+			}
+		}
+		env, err := ce.NewEnv(tr.Params, ce.EnvOpt{UtxoCacheMaxSize: rapid.SampledFrom([]uint64{0, 1 << 20}).Draw(t, "utxoCache")})
+		if err != nil {
+			t.Fatalf("VERIF-INFRA: %v", err)
+		}
+		defer env.Close()
+		sel := ce.NewSel(tr)
+		desc := func() string {
+			return fmt.Sprintf("candidate node%d rule=%s invalid=%v label=%v/%s, fork node%d, X tip node%d, Y tip node%d\ntree: %s", cand.Idx, ent.name, invalid, cand.Self, cand.Rule, fork.Idx, x.Idx, last.Idx, tr.Describe())
+		}
+		// X first, then Y (tree order within each)
+		var order []*ce.Node
+		for _, n := range tr.Nodes[1:] {
+			if n.IsAncestorOf(x) {
+				order = append(order, n)
+			}
+		}
+		for _, n := range tr.Nodes[1:] {
+			if !n.IsAncestorOf(x) {
+				order = append(order, n)
+			}
+		}
+		for _, n := range order {
+			out := sel.DeliverBlock(n)
+			_, _, err := env.Deliver(n)
+			if out.MustError && err == nil {
+				t.Fatalf("node%d accepted although %s\n%s", n.Idx, out.Why, desc())
+			}
+			if out.MustSucceed && err != nil {
+				t.Fatalf("node%d rejected with %v although %s\n%s", n.Idx, err, out.Why, desc())
+			}
+			if err := ce.CheckTip(env, sel); err != nil {
+				t.Fatalf("after node%d: %v\n%s", n.Idx, err, desc())
+			}
+		}
+		if cand.Self != ce.Valid && cand.IsAncestorOf(sel.Tip) {
+			t.Fatalf("the invalid candidate is part of the active chain\n%s", desc())
+		}
+		if err := ce.CheckUtxo(env, sel.Tip, tr.Universe()); err != nil {
+			t.Fatalf("%v\n%s", err, desc())
+		}
+		side := "valid"
+		if invalid {
+			side = "invalid"
+		}
+		recCtx.Case(true, ent.name+"/"+side, ev.Hash(cand.Hash[:]), func() any {
+			return map[string]any{"rule": ent.name, "side": side, "label": cand.Self.String() + ":" + cand.Rule, "x_fast_timestamps": xFast, "fork_height": fork.Height, "candidate_height": cand.Height}
 		})
 	})
 }
